@@ -117,6 +117,9 @@ def build_specs():
     S.append(Spec("PhasedISwapPow", (2, 2), lambda rng: (pick_exp(rng), pick_exp(rng)),
                   lambda p: cirq.PhasedISwapPowGate(phase_exponent=p[0], exponent=p[1]),
                   lambda p: G.phased_iswap(p[0], p[1]), tags=("2q",)))
+    S.append(Spec("PhasedISwapPowShift", (2, 2), lambda rng: (pick_exp(rng), pick_exp(rng), float(rng.choice([0.5, -0.5, 0.25, 1.0, -0.37]))),
+                  lambda p: cirq.PhasedISwapPowGate(phase_exponent=p[0], exponent=p[1], global_shift=p[2]),
+                  lambda p: G.phased_iswap(p[0], p[1], p[2]), tags=("2q",)))
     S.append(Spec("givens", (2, 2), one, lambda p: cirq.givens(p[0]), lambda p: G.givens(p[0]), tags=("2q",)))
     S.append(Spec("cphase", (2, 2), one, lambda p: cirq.cphase(p[0]), lambda p: G.cphase(p[0]), tags=("2q", "diag")))
     S.append(Spec("CSWAP", (2, 2, 2), lambda rng: (), lambda p: cirq.CSWAP, lambda p: G.CSWAP, tags=("3q",)))
